@@ -122,7 +122,7 @@ def classify_abort(res, abort):
         first = [l for l in err.splitlines() if "runtime error" in l][:1]
         return "sanitizer", "sanitizer:ubsan", first[0] if first else err[:400]
     if res["rc"] == -999:
-        return "abort", "abort:timeout", "driver did not finish within 60 s"
+        return "abort", "abort:timeout", "driver did not finish within 20 s of CPU time"
     return "crash", "crash:rc%d" % res["rc"], "driver ended with status %d\n%s" % (res["rc"], err[:600])
 
 
